@@ -34,7 +34,7 @@ type Result struct {
 	FPs        []uint64         `json:"-"`
 	SchedHash  uint64           `json:"-"`
 	StateFPs   []uint64         `json:"-"`
-	SimNs      int64            `json:"-"`
+	SimSec     float64          `json:"-"`
 	Steps      int64            `json:"-"`
 	Sample     any              `json:"-"`
 	Discarded  bool             `json:"-"`
@@ -56,7 +56,11 @@ type Run struct {
 	trace   []string
 	noTr    bool
 	closers []func()
+	seq     int
 }
+
+// NextID returns a per-run unique small integer.
+func (r *Run) NextID() int { r.seq++; return r.seq }
 
 type abortRun struct{}
 
@@ -220,7 +224,7 @@ func Exec(t *testing.T, sp Spec, engine Engine) *Result {
 			// copy results out before any teardown
 			res.Tape = append([]uint32(nil), tape.Out...)
 			res.Trace = r.trace
-			res.SimNs = int64(time.Since(r.Start))
+			res.SimSec = time.Since(r.Start).Seconds()
 			res.Steps = int64(r.Sched.Steps)
 			res.SchedHash = r.Sched.hash
 			// teardown
